@@ -9,7 +9,7 @@ import (
 
 func init() {
 	register(&propDef{ID: "C19", Run: runC19,
-		Explain: "Structural necessary conditions of 'the rotation follows name resolution, with bounded failure tolerance', decided on SSA/CFG of /repo: (1) diff-direction: in addressResolved added = strArraySub(resolved, known) and removed = strArraySub(known, resolved), both computed before the known set is replaced, and handed to the notifier in the order (added, removed), which every callback and hostIPChanged receive in that order; strArraySub(a, b) keeps the elements of a that are not in b and inStrArray is membership by equality; (2) failure-threshold: on the failure edge the counter is incremented by exactly 1, the rotation is emptied only when the counter has reached 4 and addresses are known, the counter is reset to 0 there, the known set becomes empty and the notifier gets (empty, previous set); (3) success-reset: on every success path the counter is reset to 0 and the known set replaced by the resolved one, and the notifier runs exactly when one of the two differences is non-empty; (4) membership-events: hostIPChanged creates a backend for each added address and removes RemoveBackend(createHostPort(ip, port)) for each removed one with the same address builder on both sides; resolver callbacks created in a loop capture only per-iteration variables; Add/RemoveBackend keep list, map, notification and Close in step (shared with C05.2) and the loop applies the events under Backend.GetAddress() (C04.3).",
+		Explain:    "Structural necessary conditions of 'the rotation follows name resolution, with bounded failure tolerance', decided on SSA/CFG of /repo: (1) diff-direction: in addressResolved added = strArraySub(resolved, known) and removed = strArraySub(known, resolved), both computed before the known set is replaced, and handed to the notifier in the order (added, removed), which every callback and hostIPChanged receive in that order; strArraySub(a, b) keeps the elements of a that are not in b and inStrArray is membership by equality; (2) failure-threshold: on the failure edge the counter is incremented by exactly 1, the rotation is emptied only when the counter has reached 4 and addresses are known, the counter is reset to 0 there, the known set becomes empty and the notifier gets (empty, previous set); (3) success-reset: on every success path the counter is reset to 0 and the known set replaced by the resolved one, and the notifier runs exactly when one of the two differences is non-empty; (4) membership-events: hostIPChanged creates a backend for each added address and removes RemoveBackend(createHostPort(ip, port)) for each removed one with the same address builder on both sides; resolver callbacks created in a loop capture only per-iteration variables; Add/RemoveBackend keep list, map, notification and Close in step (shared with C05.2) and the loop applies the events under Backend.GetAddress() (C04.3).",
 		NotDecided: "DNS behaviour, timing, ordering of concurrent notify goroutines (the quantifier assumes quiescence)."})
 }
 
@@ -122,7 +122,10 @@ func c19Resolved(c *Ctx) {
 		return
 	}
 	entry := ssa.Value(extractOf(lk, 0))
-	known := func(v ssa.Value) bool { b, ok := isLoadOf(v, "AddressWithCallback.addrs"); return ok && strip(b) == entry }
+	known := func(v ssa.Value) bool {
+		b, ok := isLoadOf(v, "AddressWithCallback.addrs")
+		return ok && strip(b) == entry
+	}
 	failed := func(a Atom) bool { return a.Kind == "nil" && isParam(f, a.X, 3) } // err == nil
 	okPath := []assumption{assumeAtom(failed, true)}
 	failPath := []assumption{assumeAtom(failed, false)}
@@ -443,8 +446,13 @@ func c19HostIPChanged(c *Ctx) {
 		c.check(good, rule, fmt.Sprintf("hostIPChanged/add#%d", nAdd), w.ipos(cs.In), "each added address becomes a backend of the configured protocol at createHostPort(ip, port)", "an added address is not turned into New<proto>Backend(local, createHostPort(ip, port)) and added on success under the matching protocol")
 	}
 	c.check(nAdd == 2, rule, "hostIPChanged/add-sites", w.pos(f.Pos()), "udp and tcp additions", fmt.Sprintf("expected an AddBackend for udp and one for tcp, found %d", nAdd))
-	for _, loop := range []*rangeLoop{newLoop, remLoop} {
+	for i, loop := range []*rangeLoop{newLoop, remLoop} {
 		c.check(len(loop.earlyExits()) == 0, rule, "hostIPChanged/every-address@"+w.ipos(loop.If), w.ipos(loop.If), "every address is processed", "the walk over the changed addresses can end early")
+		// both walks happen on every call: no return can be reached without passing the head of the walk
+		isRet := func(in ssa.Instruction) bool { _, ok := in.(*ssa.Return); return ok }
+		skipped := canReach(entryPt(f), nil, isRet, isInstr(loop.If))
+		what := []string{"added", "removed"}[i]
+		c.check(!skipped, rule, "hostIPChanged/always-walks-"+what, w.ipos(loop.If), "the "+what+" addresses are walked on every notification", "hostIPChanged can return without walking the "+what+" addresses (an early return that depends on the other list): e.g. the notification that empties the rotation after repeated failures carries no added address and is dropped, so the stale members stay")
 	}
 	// removals
 	nRem := 0
